@@ -214,6 +214,9 @@ func loadKnown() []KnownFinding {
 	return k.Known
 }
 
+// Startup, if set, runs in every worker before the check (calibration).
+var Startup func()
+
 // RunShard runs one shard in-process and writes its result to out.
 func RunShard(ch *Check, tier string, shard, nshards int, seed int64, out string) {
 	c := &Ctx{ID: ch.ID, Tier: tier, Shard: shard, NShards: nshards, Seed: seed}
@@ -223,6 +226,9 @@ func RunShard(ch *Check, tier string, shard, nshards int, seed int64, out string
 		}
 	}
 	t0 := time.Now()
+	if Startup != nil {
+		Startup()
+	}
 	ch.Run(c)
 	ms := time.Since(t0).Milliseconds()
 	c.Max("max_shard_wall_ms", ms)
